@@ -11,6 +11,7 @@
 """
 from fractions import Fraction
 import io
+import os
 import struct
 
 import numpy as np
@@ -209,6 +210,67 @@ def part_b(_item):
         p = tf['g']['t'].properties['c']
         if (int(p.seconds), int(p.second_fractions)) != RAW[1]:
             bad('write-prop', (name,) + RAW[1], (int(p.seconds), int(p.second_fractions)))
+    # array conversion of a window / slice of raw timestamps == scalar conversions of its items, whatever was converted before
+    # (whole array first, then the window; and the other way round on a fresh array)
+    h = [G.seg([("/'g'/'t'", ['FULL', 'TimeStamp', 5]), ("/'g'/'x'", ['FULL', 'Int8', 5])], chunks=2)]
+    data = G.encode(h)[0]
+    for order in ('whole-first', 'window-first'):
+        for unit in ('s', 'ms', 'us', 'ns'):
+            def views():
+                tf = H.TdmsFile.read(io.BytesIO(data), raw_timestamps=True)
+                ch = tf['g']['t']
+                arr = ch[:]
+                out = []
+                seq = [('whole', lambda: arr), ('slice', lambda: arr[2:5]), ('channel-slice', lambda: ch[3:9]),
+                       ('window', lambda: ch.read_data(4, 3)), ('strided', lambda: arr[::3])]
+                if order == 'window-first':
+                    seq = seq[1:] + seq[:1]
+                for name, get in seq:
+                    a = get()
+                    conv = a.as_datetime64(unit)
+                    items = [a[i].as_datetime64(unit) for i in range(len(a))]
+                    out.append((name, len(a), [int(v.astype('int64')) for v in conv], [int(v.astype('int64')) for v in items]))
+                return out
+            r = H.guarded(views)
+            res['counters']['cases'] += 1
+            if r[0] != 'ok':
+                if 'Overflow' in r[1]:
+                    continue    # a pool value outside this unit's range: nothing to compare
+                bad('view-raised', 'conversions of views', repr(r)[:200])
+                continue
+            for name, n, conv, items in r[1]:
+                if len(conv) != n or conv != items:
+                    bad('view-conversion', '%s (%s, %s): array conversion == scalar conversions of its %d items' % (name, unit, order, n),
+                        'array gives %d values %s, items give %s' % (len(conv), conv[:3], items[:3]))
+                    break
+    # a naive datetime.datetime names the same instant whatever the local time zone of the process is
+    import datetime
+    import time
+    old_tz = os.environ.get('TZ')
+    naive = [datetime.datetime(2021, 6, 1, 12, 30, 15, 500000), datetime.datetime(1903, 1, 2, 3, 4, 5), datetime.datetime(1970, 1, 1, 0, 0, 0)]
+    for tz in ('JST-9', 'EST5EDT', 'UTC'):
+        os.environ['TZ'] = tz
+        time.tzset()
+        try:
+            def tz_cycle():
+                out = io.BytesIO()
+                with TdmsWriter(out) as w:
+                    w.write_segment([RootObject({'p%d' % i: v for i, v in enumerate(naive)}), ChannelObject('g', 't', list(naive))])
+                tf = H.TdmsFile.read(io.BytesIO(out.getvalue()))
+                return [tf.properties['p%d' % i] for i in range(len(naive))], tf['g']['t'][:]
+            r = H.guarded(tz_cycle)
+        finally:
+            if old_tz is None:
+                os.environ.pop('TZ', None)
+            else:
+                os.environ['TZ'] = old_tz
+            time.tzset()
+        res['counters']['cases'] += 1
+        want = [np.datetime64(v, 'us') for v in naive]
+        if r[0] != 'ok':
+            bad('tz-raised', 'naive datetimes written under TZ=%s' % tz, repr(r)[:200])
+        elif list(r[1][0]) != want or list(r[1][1]) != want:
+            bad('tz-shift', 'naive datetimes read back unchanged under TZ=%s: %s' % (tz, want[0]), '%s / %s' % (r[1][0][0], r[1][1][0]))
     # datetimes handed to the writer in other datetime64 units (pandas: [ns]) denote the same instants
     for unit in ('ns', 'ms', 's', 'm', 'h', 'D'):
         sub = [0, 500000] if unit in ('ns', 'ms') else [0]
